@@ -42,6 +42,8 @@ def atrf_rev(x, y, z, epoch, vcv):
 
 def _run(repo, rep):
     alg.reset()
+    from .. import symcheck as _sc
+    _sc.set_ranges({'x': (1.0e6, 1.0e7), 'y': (1.0e6, 1.0e7), 'z': (1.0e6, 1.0e7)})
     rep.trust('sv/alg.py exact normal forms; opaque call atoms carry every formal parameter of the callee (defaults explicit)')
     ev = Evaluator(repo)
     # 1. epoch propagation
